@@ -180,7 +180,7 @@ func init() {
 		return snapshotCheck("C03", nil, "Plus the scale-in clause on the search driver: from every steady state the edit 'add slot k, replicas-1' followed by all interleavings of reconcile and kubelet progress deletes pod k and no other pod on every path and ends without pod k. Oracle: every pod delete is class (a) outside desired, (b) Failed/Succeeded and replaced, or (c) RollingUpdate, >= partition, revision != update revision; a live desired up-to-date pod (API truth) is never deleted.")
 	})
 	register("c04", "creates only at vacant desired ordinals (snapshot enumeration)", func([]string) int {
-		return snapshotCheck("C04", nil, "Oracle: every pod create is at a desired, non-slot ordinal that holds no claimed pod in the snapshot (or whose dead pod was just removed), never for a deleting set.")
+		return snapshotCheck("C04", func(o *gridOpts) { o.UnknownPhase = o.DMax >= 0 && o.DMax <= 1 }, "The single-deviation grids also place a pod of phase Unknown (not Ready) at every ordinal. Oracle: every pod create is at a desired, non-slot ordinal that holds no claimed pod in the snapshot (or whose dead pod was just removed), never for a deleting set.")
 	})
 	register("c05", "OrderedReady discipline (snapshot enumeration)", func([]string) int {
 		return snapshotCheck("C05", func(o *gridOpts) { o.Policies = []string{"OrderedReady", "", "Bogus"} }, "Oracle: <=1 ordinal touched per reconcile; create needs healthy predecessors; scale-in needs all desired Ready and removes the highest condemned pod; update-delete needs no condemned pod and all desired healthy.")
